@@ -349,7 +349,7 @@ fn case_tree(e: &E) -> Outcome {
 }
 
 fn case_regress(doc: &serde_json::Value) -> Outcome {
-    let Some(g) = G::from_json(&doc["g"]) else { return Outcome::Broken("bad regress file".into()) };
+    let Some(g) = super::common::grammar_from_doc(doc) else { return Outcome::Broken("bad regress file".into()) };
     let text = print_minimal(&g);
     match judge(&g, &text, true, 0) {
         Outcome::Pass(mut c) => {
